@@ -15,6 +15,8 @@ import NeumannModel.Paths.AlgoModel
     mst <forest 0|1>                          -> ok <total> <tree count> <weights of the accepted edges> | empty
     kcore <etype|->                           -> ok <node:core,...> (sorted by node) | empty
     triangles <etype|-> <undirected 0|1>      -> ok <count> <node:count,...> (sorted by node) | empty
+    edgesof <n> <out|in|both>                 -> ok <sorted edge ids> | nonode <id>
+    nbrs <n> <out|in|both> <etype|-> <nodeconds> <edgeconds> -> ok <sorted ids> | nonode <id>
     wpath <s> <t>                             -> ok <cost> n=<ids> e=<ids> | none | neg <edge id> | nonode <id>
     astar <s> <t> <out|in|both>               -> ok <cost> | none      (zero heuristic; cost only)
     trav <s> <out|in|both> <maxdepth> <etype|-> <nodeconds> <edgeconds> -> ok <sorted ids> | nonode <id>
@@ -132,6 +134,16 @@ def pathsStep (g : Graph) (line : String) : Graph × String :=
           let found := triFound g et (u != 0)   -- `triangleCount` = its length, `nodeTriangles` = `cornerCount` of it
           (g, s!"ok {found.length} " ++ showPairs (g.nodes.map fun n => (n.id, cornerCount found n.id)))
       | _, _ => bad
+  | ["edgesof", n, d] => match n.toNat?, parseDir d with
+      | some n, some d => (match edgesOf g d n with
+          | some r => (g, "ok " ++ showNats (sortNats r))
+          | none => (g, s!"nonode {n}"))
+      | _, _ => bad
+  | ["nbrs", n, d, et, nc, ec] => match n.toNat?, parseDir d, parseOptNat et, parseConds nc, parseConds ec with
+      | some n, some d, some et, some nc, some ec => (match neighborsApi g et d (mkFlt g nc ec) n with
+          | some r => (g, "ok " ++ showNats (sortNats r))
+          | none => (g, s!"nonode {n}"))
+      | _, _, _, _, _ => bad
   | ["wpath", s, t] => match s.toNat?, t.toNat? with
       | some s, some t => (match findWeightedPath g s t with
           | .ok p => (g, s!"ok {p.total} n={showNats p.nodes} e={showNats p.edges}")
